@@ -38,7 +38,7 @@ META = {
                     "consistently within a run"],
     "rule": "word_size 2..40 incl. non powers of two, CPOL/CPHA, bit order, CS polarity per run; 1-5 transactions of 0-6 words "
             "plus optional partial word (cs_abort mid-word, also in the middle of a clock period), literal half-periods 1..9 "
-            "(uniform or jittered), CS setup/hold/gap 1..6, word_out changing between words",
+            "(uniform or jittered), CS setup 1..6, hold 0..6 after the last clock phase (CS may be released one cycle after the last edge), gap 1..6, word_out changing between words",
 }
 TIERS = {"quick": {"runs": 4000, "wall": 70}, "thorough": {"runs": 45000, "wall": 900}}
 
@@ -67,7 +67,7 @@ def gen(rng, tier, index):
             halves = [[rng.choice([1, 1, 2]), rng.choice([1, 1, 2])] for _ in range(n_bits)]
         else:
             halves = [[rng.randint(1, 9), rng.randint(1, 9)] for _ in range(n_bits)]
-        op = {"gap": rng.choice([1, 1, 2, 3, 4, 6]), "setup": rng.choice([1, 1, 2, 3, 6]), "hold": rng.choice([1, 1, 2, 3, 6]),
+        op = {"gap": rng.choice([1, 1, 2, 3, 4, 6]), "setup": rng.choice([1, 1, 2, 3, 6]), "hold": rng.choice([0, 0, 1, 1, 2, 3, 6]),
               "bits": bits, "halves": [list(x) for x in halves],
               "wout": [rng.getrandbits(ws) for _ in range(n_bits // ws + 1)],
               "wout_frac": [round(rng.random(), 3) for _ in range(n_bits // ws + 1)]}
